@@ -5,6 +5,7 @@ package zzverifbolt
 import (
 	"bytes"
 	"errors"
+	"os"
 
 	bolt "go.etcd.io/bbolt"
 
@@ -18,6 +19,10 @@ type Bkt struct {
 }
 
 type Model struct {
+	Files  map[string]*bolt.Bucket // database files by path (durable): root bucket of each
+	Seqs   map[*bolt.Bucket]uint64
+	txs    map[*bolt.Tx]*txState
+	curs   map[*bolt.Cursor]*bolt.Bucket
 	Bkts   map[*bolt.Bucket]*Bkt
 	Roots  map[*bolt.DB]*bolt.Bucket // top-level namespace of each DB as a bucket
 	Closed map[*bolt.DB]bool
@@ -25,6 +30,14 @@ type Model struct {
 	// fault injection: the next Update fails (returns an error without applying anything)
 	FailUpdate func() bool
 	OnCommit   func()
+}
+
+type txState struct {
+	db       *bolt.DB
+	writable bool
+	saved    map[*bolt.Bucket]*Bkt
+	savedSeq map[*bolt.Bucket]uint64
+	done     bool
 }
 
 var M *Model
@@ -58,6 +71,19 @@ func (m *Model) Reopen(old *bolt.DB) *bolt.DB {
 	return db
 }
 
+// Crash discards every open transaction (the process died): uncommitted writes are lost.
+func (m *Model) Crash() {
+	for _, st := range m.txs {
+		if !st.done && st.writable {
+			for b, k := range st.saved {
+				m.Bkts[b] = k
+			}
+			m.Seqs = st.savedSeq
+		}
+		st.done = true
+	}
+}
+
 // TopKeys returns the keys of a top-level bucket of db (nil if the bucket does not exist).
 func (m *Model) TopKeys(db *bolt.DB, bucket []byte) [][]byte {
 	root := m.Bkts[m.Roots[db]]
@@ -83,7 +109,8 @@ func (m *Model) clone(b *bolt.Bucket, into map[*bolt.Bucket]*Bkt) {
 }
 
 func Install() *Model {
-	m := &Model{Bkts: map[*bolt.Bucket]*Bkt{}, Roots: map[*bolt.DB]*bolt.Bucket{}, Closed: map[*bolt.DB]bool{}, txDB: map[*bolt.Tx]*bolt.DB{}}
+	m := &Model{Bkts: map[*bolt.Bucket]*Bkt{}, Roots: map[*bolt.DB]*bolt.Bucket{}, Closed: map[*bolt.DB]bool{}, txDB: map[*bolt.Tx]*bolt.DB{},
+		Files: map[string]*bolt.Bucket{}, Seqs: map[*bolt.Bucket]uint64{}, txs: map[*bolt.Tx]*txState{}, curs: map[*bolt.Cursor]*bolt.Bucket{}}
 	M = m
 	put := func(b *bolt.Bucket, k, v []byte) error {
 		bk := m.Bkts[b]
@@ -210,6 +237,92 @@ func Install() *Model {
 		tx := &bolt.Tx{}
 		m.txDB[tx] = db
 		return fn(tx)
+	})
+	// explicit transactions (containerd's snapshot metadata store): a writable transaction becomes durable at Commit
+	// (one crash tick) and is discarded at Rollback
+	vr.Replace("go.etcd.io/bbolt.Open", func(path string, mode os.FileMode, options *bolt.Options) (*bolt.DB, error) {
+		db := &bolt.DB{}
+		root, ok := m.Files[path]
+		if !ok {
+			root = m.NewBucket()
+			m.Files[path] = root
+		}
+		m.Roots[db] = root
+		return db, nil
+	})
+	vr.Replace("(*go.etcd.io/bbolt.DB).Begin", func(db *bolt.DB, writable bool) (*bolt.Tx, error) {
+		if m.Closed[db] {
+			return nil, errors.New("database not open")
+		}
+		tx := &bolt.Tx{}
+		m.txDB[tx] = db
+		st := &txState{db: db, writable: writable}
+		if writable {
+			st.saved = map[*bolt.Bucket]*Bkt{}
+			m.clone(m.Roots[db], st.saved)
+			st.savedSeq = map[*bolt.Bucket]uint64{}
+			for b, v := range m.Seqs {
+				st.savedSeq[b] = v
+			}
+		}
+		m.txs[tx] = st
+		return tx, nil
+	})
+	rollback := func(tx *bolt.Tx) error {
+		st := m.txs[tx]
+		if st == nil || st.done {
+			return errors.New("tx closed")
+		}
+		st.done = true
+		if st.writable {
+			for b, k := range st.saved {
+				m.Bkts[b] = k
+			}
+			m.Seqs = st.savedSeq
+		}
+		return nil
+	}
+	vr.Replace("(*go.etcd.io/bbolt.Tx).Rollback", rollback)
+	vr.Replace("(*go.etcd.io/bbolt.Tx).Commit", func(tx *bolt.Tx) error {
+		st := m.txs[tx]
+		if st == nil || st.done {
+			return errors.New("tx closed")
+		}
+		if !st.writable {
+			return errors.New("tx not writable")
+		}
+		if m.FailUpdate != nil && m.FailUpdate() {
+			rollback(tx)
+			return errors.New("verif: bolt commit failed")
+		}
+		if m.OnCommit != nil {
+			m.OnCommit() // crash tick: dying here leaves the transaction uncommitted
+		}
+		st.done = true
+		return nil
+	})
+	vr.Replace("(*go.etcd.io/bbolt.Tx).Writable", func(tx *bolt.Tx) bool { return m.txs[tx] != nil && m.txs[tx].writable })
+	vr.Replace("(*go.etcd.io/bbolt.Bucket).NextSequence", func(b *bolt.Bucket) (uint64, error) {
+		m.Seqs[b]++
+		return m.Seqs[b], nil
+	})
+	vr.Replace("(*go.etcd.io/bbolt.Bucket).Cursor", func(b *bolt.Bucket) *bolt.Cursor {
+		c := &bolt.Cursor{}
+		m.curs[c] = b
+		return c
+	})
+	vr.Replace("(*go.etcd.io/bbolt.Cursor).Seek", func(c *bolt.Cursor, seek []byte) ([]byte, []byte) {
+		bk := m.Bkts[m.curs[c]]
+		best := -1
+		for i := range bk.Keys {
+			if bytes.Compare(bk.Keys[i], seek) >= 0 && (best < 0 || bytes.Compare(bk.Keys[i], bk.Keys[best]) < 0) {
+				best = i
+			}
+		}
+		if best < 0 {
+			return nil, nil
+		}
+		return bk.Keys[best], bk.Vals[best]
 	})
 	vr.Replace("(*go.etcd.io/bbolt.DB).Close", func(db *bolt.DB) error {
 		m.Closed[db] = true
